@@ -9,6 +9,7 @@ func All() map[string]core.Prop {
 		"C02": C02{},
 		"C03": C03{},
 		"C04": C04{},
+		"C05": C05{},
 		"C17": C17{},
 	}
 }
